@@ -270,7 +270,14 @@ def c16_2(ctx):
     # 6-byte integers
     p6, s6 = codecs.get("6", (None, None))
     e6, _n = _codec(p6)
-    ctx.check(e6 == {("True", "return struct.unpack('<Q', p0.read(6) + b'\\x00\\x00')[0]")}, "int6-parse", MPP + ":1", "codec '6' parses with %s; it must be struct.unpack('<Q', 6 bytes + 2 zero bytes)" % sorted(e6 or []), sample={"parse": sorted(e6 or [])})
+    want6 = {("True", "return struct.unpack('<Q', p0.read(6) + b'\\x00\\x00')[0]")}
+    # the same value by int.from_bytes(<6 bytes read>, 'little'), a short read refused (struct.unpack refuses it by itself)
+    rets6 = {x for c_, x in (e6 or set()) if x.startswith("return ")}
+    alt6 = rets6 == {"return int.from_bytes(p0.read(6), 'little')"} and any(x.startswith("raise ") for c_, x in (e6 or set())) and any("6 == len(p0.read(6))" in c_ and x.startswith("return ") for c_, x in (e6 or set()))
+    if e6 != want6 and not alt6 and e6 and all("p0.read(6)" in x or x.startswith("raise ") for c_, x in e6) and any("from_bytes" in x or "unpack" in x for c_, x in e6):
+        ctx.undecided("int6-parse", MPP + ":1", "codec '6' parses with %s; this rule reads struct.unpack('<Q', 6 bytes + 2 zero bytes) and int.from_bytes(6 bytes, 'little') behind a length test" % sorted(e6)[:2])
+    else:
+        ctx.check(e6 == want6 or alt6, "int6-parse", MPP + ":1", "codec '6' parses with %s; it must be struct.unpack('<Q', 6 bytes + 2 zero bytes)" % sorted(e6 or []), sample={"parse": sorted(e6 or [])})
     e6s, _n = _codec(s6)
     # the first six of the eight bytes, counted from either end
     ctx.check(e6s in ({("True", "return p0.write(struct.pack('<Q', p1)[:6])")}, {("True", "return p0.write(struct.pack('<Q', p1)[:-2])")}), "int6-stream", MPP + ":1",
